@@ -87,6 +87,10 @@ func randParams(rng *rand.Rand) DParams {
 	if rng.Intn(3) == 0 {
 		p.MinDelegatorStake = e18(2).String()
 	}
+	if rng.Intn(4) == 0 {
+		// a block gas ceiling that ordinary blocks exceed (the properties attach no rule to it)
+		p.MaxBlockGas = p.MinTrxGas*uint64(2+rng.Intn(4)) + 1
+	}
 	return p
 }
 
@@ -392,7 +396,16 @@ func (g *Gen) draft(kind string, invalid bool, h int64, sh *MState, P *DParams, 
 		if a != nil {
 			nonce = a.Nonce
 		}
-		tx := mkTx(typ, k.Addr, to, nonce, g.gasFor(P, typ), u256big(price), u256big(amt), pl, tm)
+		gas := g.gasFor(P, typ)
+		if typ != rctypes.TRX_CONTRACT && a != nil && g.rng.Intn(10) == 0 {
+			// a generous gas limit (log-uniform up to 2^34) when the sender can pay for it: fees beyond 2^64 units occur
+			wide := P.MinTrxGas + uint64(1)<<uint(g.rng.Intn(35)) + uint64(g.rng.Intn(1000))
+			fee := new(big.Int).Mul(new(big.Int).SetUint64(wide), price)
+			if new(big.Int).Add(new(big.Int).Mul(fee, big.NewInt(2)), amt).Cmp(a.Bal) < 0 && wide <= P.MaxTrxGas {
+				gas = wide
+			}
+		}
+		tx := mkTx(typ, k.Addr, to, nonce, gas, u256big(price), u256big(amt), pl, tm)
 		return &txDraft{tx: tx, key: k, label: label, ok: true, sigOK: true}
 	}
 	var d *txDraft
@@ -863,6 +876,23 @@ func (g *Gen) spoil(d *txDraft, h int64, sh *MState, P *DParams, price *big.Int,
 				return false
 			}},
 			{"vote-to-nonzero", func() bool { d.tx.To = g.pick(g.All).Addr; return true }},
+			{"vote-reference-concat", func() bool {
+				// 64-byte reference: a proposal that is not open for this voter, followed by the open one
+				for _, pk := range sortedKeys(sh.Proposals) {
+					p := sh.Proposals[pk]
+					if pk != hx(pl.TxHash) && (h < p.Start || h > p.End || p.Voters[d.key.A()] == nil) {
+						cp.TxHash = append(append([]byte{}, addrBytes(pk)...), pl.TxHash...)
+						d.tx.Payload = &cp
+						return true
+					}
+				}
+				return false
+			}},
+			{"vote-reference-with-junk-prefix", func() bool {
+				cp.TxHash = append(sha256sum([]byte(fmt.Sprint("jp", g.seq))), pl.TxHash...)
+				d.tx.Payload = &cp
+				return true
+			}},
 		}
 	case rctypes.TRX_SETDOC:
 		specific = []sp{
